@@ -92,7 +92,10 @@ def make_sync(pid, macro, profile, config, order, idx, seed):
     # local macro_rules dispatcher on arity when needed
     opt_tokens = {}
     if "joiner" in config:
-        if len(jname) == 1:
+        if not jname:
+            # no step has more than one active branch: the joiner is never invoked (and need not even exist)
+            opt_tokens["joiner"] = "custom_joiner(never_invoked_joiner)"
+        elif len(jname) == 1:
             opt_tokens["joiner"] = "custom_joiner(%s)" % list(jname.values())[0]
         else:
             disp = "jd_%s" % pid
